@@ -106,7 +106,7 @@ def build(selected_tags=None, extra_files=None, verbose=False, transform=None):
     # 1. rsync the sources (mtime preserving); patched files and injected modules are excluded
     #    from the transfer and handled below so that unchanged files keep their mtimes.
     filt = ["--exclude=/target", "--exclude=target/", "--exclude=verif_kani_*.rs",
-            "--exclude=/Cargo.toml"]
+            "--exclude=/Cargo.toml", "--exclude=/utils/verif_c03", "--exclude=/Cargo.lock"]
     for t in targets:
         filt.append("--exclude=/" + t)
     cmd = ["rsync", "-a", "--delete", "--delete-excluded"] + filt + [
@@ -117,6 +117,13 @@ def build(selected_tags=None, extra_files=None, verbose=False, transform=None):
     cmd.remove("--delete-excluded")
     subprocess.run(cmd, check=True)
     _write_if_changed(os.path.join(OVERLAY, "Cargo.toml"), workspace_toml().encode())
+    # Cargo.lock: start from /repo's, but keep the overlay's copy while /repo's is unchanged (cargo adds
+    # the local driver package to it)
+    lock_src = _read(os.path.join(REPO, "Cargo.lock"))
+    stamp_l = os.path.join(WORK, "cargo.lock.src")
+    if not os.path.exists(stamp_l) or _read(stamp_l) != lock_src or not os.path.exists(os.path.join(OVERLAY, "Cargo.lock")):
+        _write_if_changed(os.path.join(OVERLAY, "Cargo.lock"), lock_src)
+        _write_if_changed(stamp_l, lock_src)
 
     wanted = set()
     digests = {}
@@ -133,7 +140,8 @@ def build(selected_tags=None, extra_files=None, verbose=False, transform=None):
             fname = ident + ".rs"
             # a non-mod-rs file `foo.rs` looks for child modules in `foo/`, but #[path] on a
             # non-inline module is relative to the directory of the current file.
-            tail += (b"#[cfg(kani)]\n#[allow(warnings, clippy::all, clippy::pedantic, clippy::nursery, "
+            tail += (b"" if tag.startswith("native") else b"#[cfg(kani)]\n")
+            tail += (b"#[allow(warnings, clippy::all, clippy::pedantic, clippy::nursery, "
                      b"clippy::restriction, unused, unsafe_code, missing_docs)]\n#[path = \"%s\"]\nmod %s;\n"
                      % (fname.encode(), ident.encode()))
             _write_if_changed(os.path.join(OVERLAY, d, fname), data)
